@@ -40,6 +40,47 @@ type SecureScenario struct {
 	SwapSeed bool   `json:"swapseed"`
 	Conc     bool   `json:"conc"`
 	Hret     string `json:"hret"`
+	Nbr      string `json:"nbr"`
+	Nret     string `json:"nret"`
+}
+
+// secNeighbour is a plugin next to the secure plugin that lets every message pass: each of its read hooks
+// (header, pre-body, post-body of CALL / PUSH / REPLY) and write hooks reports success, either with a nil
+// status or with a status object of code 0 (scenario field nret). It looks at nothing and changes nothing.
+type secNeighbour struct{ okstatus bool }
+
+func (n *secNeighbour) ret() *erpc.Status {
+	if n.okstatus {
+		return erpc.NewStatus(erpc.CodeOK, "", nil)
+	}
+	return nil
+}
+func (n *secNeighbour) Name() string                                  { return "verif-neighbour" }
+func (n *secNeighbour) PreWriteCall(erpc.WriteCtx) *erpc.Status       { return n.ret() }
+func (n *secNeighbour) PostWriteCall(erpc.WriteCtx) *erpc.Status      { return n.ret() }
+func (n *secNeighbour) PreWritePush(erpc.WriteCtx) *erpc.Status       { return n.ret() }
+func (n *secNeighbour) PostWritePush(erpc.WriteCtx) *erpc.Status      { return n.ret() }
+func (n *secNeighbour) PreWriteReply(erpc.WriteCtx) *erpc.Status      { return n.ret() }
+func (n *secNeighbour) PostWriteReply(erpc.WriteCtx) *erpc.Status     { return n.ret() }
+func (n *secNeighbour) PostReadCallHeader(erpc.ReadCtx) *erpc.Status  { return n.ret() }
+func (n *secNeighbour) PreReadCallBody(erpc.ReadCtx) *erpc.Status     { return n.ret() }
+func (n *secNeighbour) PostReadCallBody(erpc.ReadCtx) *erpc.Status    { return n.ret() }
+func (n *secNeighbour) PostReadPushHeader(erpc.ReadCtx) *erpc.Status  { return n.ret() }
+func (n *secNeighbour) PreReadPushBody(erpc.ReadCtx) *erpc.Status     { return n.ret() }
+func (n *secNeighbour) PostReadPushBody(erpc.ReadCtx) *erpc.Status    { return n.ret() }
+func (n *secNeighbour) PostReadReplyHeader(erpc.ReadCtx) *erpc.Status { return n.ret() }
+func (n *secNeighbour) PreReadReplyBody(erpc.ReadCtx) *erpc.Status    { return n.ret() }
+func (n *secNeighbour) PostReadReplyBody(erpc.ReadCtx) *erpc.Status   { return n.ret() }
+
+// secPlace puts the neighbour before or after the secure plugin in a peer's plugin list.
+func secPlace(sec erpc.Plugin, nb erpc.Plugin, where string) []erpc.Plugin {
+	switch where {
+	case "before":
+		return []erpc.Plugin{nb, sec}
+	case "after":
+		return []erpc.Plugin{sec, nb}
+	}
+	return []erpc.Plugin{sec}
 }
 
 // secHret = 1: the CALL handlers report success with a status object of code 0 instead of nil.
@@ -171,7 +212,7 @@ func rsSafe(k int) string {
 
 func runSecure(rec *Rec, sc *SecureScenario, n int, rnd *rand.Rand) {
 	rec.SetTrace(sc.ID, map[string]interface{}{"mode": "secure", "kind": sc.Kind, "marker": sc.Marker, "accept": sc.Accept, "enforce": sc.Enforce, "hret": sc.Hret,
-		"keys": sc.Keys, "keylen": sc.KeyLen, "codec": sc.Codec, "body": sc.Body, "reqenc": sc.ReqEnc, "invoked": sc.Invoked, "replyenc": sc.ReplyEn, "status": sc.Status, "resend": sc.Resend, "prev": sc.Prev, "swapseed": sc.SwapSeed, "conc": sc.Conc})
+		"keys": sc.Keys, "keylen": sc.KeyLen, "codec": sc.Codec, "body": sc.Body, "reqenc": sc.ReqEnc, "invoked": sc.Invoked, "replyenc": sc.ReplyEn, "status": sc.Status, "resend": sc.Resend, "prev": sc.Prev, "swapseed": sc.SwapSeed, "conc": sc.Conc, "nbr": sc.Nbr, "nret": sc.Nret})
 	key := func() string {
 		b := make([]byte, sc.KeyLen)
 		for i := range b {
@@ -194,16 +235,27 @@ func runSecure(rec *Rec, sc *SecureScenario, n int, rnd *rand.Rand) {
 	} else {
 		atomic.StoreInt32(&secEnforce, 0)
 	}
-	srvPlugins := []erpc.Plugin{secure.NewPlugin(9999, k2)}
+	// the neighbouring plugin (one object per peer): on the serving side before / after the secure plugin or on the
+	// routes, on the calling side before / after it ("route": after, the calling peer serves nothing here)
+	srvNb, cliNb := &secNeighbour{okstatus: sc.Nret == "okstatus"}, &secNeighbour{okstatus: sc.Nret == "okstatus"}
+	cliWhere := sc.Nbr
+	if cliWhere == "route" {
+		cliWhere = "after"
+	}
+	var routePlugins []erpc.Plugin
+	if sc.Nbr == "route" {
+		routePlugins = []erpc.Plugin{srvNb}
+	}
+	srvPlugins := secPlace(secure.NewPlugin(9999, k2), srvNb, sc.Nbr)
 	if sc.SwapSeed {
 		srvPlugins = append(srvPlugins, swapSeeder{})
 	}
 	srv := erpc.NewPeer(erpc.PeerConfig{DefaultBodyCodec: "json"}, srvPlugins...)
-	cli := erpc.NewPeer(erpc.PeerConfig{DefaultBodyCodec: "json"}, secure.NewPlugin(9999, k1))
-	srv.RouteCall(new(SJ))
-	srv.RoutePush(new(SJP))
-	srv.RouteCall(new(SP))
-	srv.RoutePush(new(SPP))
+	cli := erpc.NewPeer(erpc.PeerConfig{DefaultBodyCodec: "json"}, secPlace(secure.NewPlugin(9999, k1), cliNb, cliWhere)...)
+	srv.RouteCall(new(SJ), routePlugins...)
+	srv.RoutePush(new(SJP), routePlugins...)
+	srv.RouteCall(new(SP), routePlugins...)
+	srv.RoutePush(new(SPP), routePlugins...)
 	defer func() {
 		done := make(chan struct{})
 		go func() { cli.Close(); srv.Close(); close(done) }()
